@@ -152,10 +152,15 @@ def scenario(rng, k):
         if twins and rng.random() < 0.7:
             nm = rng.choice(twins)
         entry = os.path.join("cond-out", cpkg, "comb.task", nm)
-        kind = rng.choice(["file", "dir"])
-        steps.append({"cmd": "plant", "entries": [{"path": entry, "kind": "remove"},
-                                                  {"path": entry, "kind": kind, "files": {"mine.txt": "user data"}, "content": "user"}]})
-        steps.append({"cmd": "run", "argv": ["run", "//:top", "--again"], "clock": 500, "conflict": entry, "_nm": nm})
+        kind = rng.choice(["file", "dir", "copy_of_target"])
+        if kind == "copy_of_target":
+            steps.append({"cmd": "plant", "entries": [{"path": entry, "kind": "copy_of_target"}]})
+        else:
+            steps.append({"cmd": "plant", "entries": [{"path": entry, "kind": "remove"},
+                                                      {"path": entry, "kind": kind, "files": {"mine.txt": "user data"}, "content": "user"}]})
+        # (a copy stays equal to its model only if the dependency is not executed again: cached experiments without --again)
+        steps.append({"cmd": "run", "argv": ["run", "//:top"] + ([] if kind == "copy_of_target" and rng.random() < 0.7 else ["--again"]),
+                      "clock": 500, "conflict": entry, "_nm": nm})
     return {"project": proj, "cpkg": cpkg, "chosen": chosen, "steps": steps, "tag": k}
 
 
